@@ -19,10 +19,10 @@ from props import c06_util as X
 PROP = "C06"
 LEVEL = "proof"
 GEN_UNITS = ["GenUtils"]
-COQ_TARGETS = ["Props/C06.vo", "Model/C06Stm.vo", "Model/Harness.vo"]
+COQ_TARGETS = ["Props/C06.vo", "Model/C06Stm.vo", "Model/C06Cont.vo", "Model/Harness.vo"]
 THEOREM_FILES = ["Props/C06.v"]
 COQ_IMPORTS = ("From Coq Require Import List ZArith Bool QArith Qcanon.\n"
-               "From PV Require Import Base.Index Np.Array Model.Sparse Model.Repr Model.Harness Model.C03Ops Model.C06Ops Model.C01Conv Model.C06Stm\n"
+               "From PV Require Import Base.Index Np.Array Model.Sparse Model.Repr Model.Harness Model.C03Ops Model.C06Ops Model.C01Conv Model.C06Stm Model.C06Cont\n"
                "                       Model.C02Spec Model.C02Sparse Model.C02SpKernels Model.C02SpMore Model.C07Ops.\n"
                'Set Warnings "-abstract-large-number".\n')
 RULE = ("stream 1: every C03 request (operator x right-hand-side kind) on all zero-pattern pairs of the shapes (2,2) [operators rotated] and "
@@ -50,29 +50,35 @@ RULE = ("stream 1: every C03 request (operator x right-hand-side kind) on all ze
         "least two distinct stored orders were run, or a history / chain / generator case; distinct = distinct (op, args)")
 EXPLANATION = ("Theorems: uniqueness of the representation up to stored order (canon_unique), canonical form, order independence of "
                "every operation that is denotationally correct (instantiated for the C03 operators, permute/reshape/squeeze/to_sptenmat/"
-               "__setitem__ of sptensor, squash, sptenmat.__setitem__, and the C02 kernels ttv/ttm/collapse/contract/scale/mask/innerprod/"
-               "norm^2). Correspondence, evaluated in Coq on pyttb's raw outputs (Model/C06Ops.v, Model/C06Stm.v): the result kind is the "
+               "__setitem__ of sptensor — since wave 3b in TOTAL form incl. index-list keys that repeat an index, tensor-valued right-hand "
+               "sides and growth —, squash, sptenmat.__setitem__, and the C02 kernels ttv/ttm/collapse/contract/scale/mask/extract/innerprod/"
+               "norm^2; for ttv/collapse/contract/ttm also the CONTAINER pyttb assembles: well-formed, no explicit zero under exact "
+               "cancellation, same kind and same result for every stored order). Correspondence, evaluated in Coq on pyttb's raw outputs "
+               "(Model/C06Ops.v, Model/C06Stm.v, Model/C06Cont.v): the result kind is the "
                "same for every stored order and memory layout; every returned sptensor and sptenmat satisfies the raw well-formedness bits "
                "(one value per subscript row, integer DTYPE of the subscript array whenever a row is stored, in bounds, pairwise distinct, "
                "no explicit zero, nnz = stored rows, full() returns); all runs have the same canonical form or the same number; the first "
-               "run is what the model the theorems are stated over computes from the literal operand (impl_ttv_sp, impl_ttm_sp, "
-               "impl_collapse_sp, impl_contract_sp, impl_scale_sp, impl_mask_sp, permute_sp, reshape_sp_all, squeeze_sp, squash, zinner, "
+               "run is what the model the theorems are stated over computes from the literal operand (impl_ttv_sp / cont_ttv, impl_ttm_sp / "
+               "ttm_Ynt / cont_ttm_ndarray, impl_collapse_sp / cont_collapse, impl_contract_sp / cont_contract, impl_scale_sp, impl_mask_sp, "
+               "impl_extract, permute_sp, reshape_sp_all, squeeze_sp, squash, zinner, "
                "impl_stm_setitem after every step of a sptenmat history); generators denote what they are asked for (sptendiag: the "
                "super-diagonal; aggregating constructors: the sums), do not alias or change the caller's arrays.")
 CORRESPONDENCE_ONLY = [
-    "__truediv__ (scalar/dense: result well-formedness is part of C03_div_scalar / C03_div_dense_partial; sparse operand: open finding A-07), "
+    "__truediv__ (scalar/dense: result well-formedness is part of C03_div_scalar / C03_div_dense_partial; sparse operand: repaired by /repo "
+    "e2beb21 — observed well-formed and order-independent except for the explicit zeros of open finding C03-N7; no C06 theorem), "
     "logical_or/xor with dense/scalar operands (dense results), __eq__/__ne__ scalar/dense/sparse own paths (proved correct in C03, no separate "
     "C06 instance): order independence observed on pyttb's raw outputs",
     "from_aggregator with duplicate input rows (proved in C03_from_aggregator; order independence of the INPUT rows observed only for sum)",
     "innerprod with a Kruskal operand; norm: the square root (norm^2 is proved order-independent)",
-    "ttv / ttm / collapse / contract: the C02 models give the VALUE of the result at every subscript (proved order-independent and equal to "
-    "the defining sum: C06_ops_ttv, _ttm, _collapse, _contract); the well-formedness of the CONTAINER pyttb returns for them (sptensor / "
-    "tensor switch, accumulation of equal projections, no explicit zero) is observed on pyttb's raw outputs only; ttm with several matrices "
-    "or a scipy matrix, collapse with a function other than sum: observed only / not generated",
-    "extract, __getitem__ of sptensor beyond the C04 state machine's paths; __setitem__ with a sparse right-hand side, with index-list keys or "
-    "growing the shape: generated and observed (raw bits, order independence), no theorem; reshape with old_modes: not generated",
+    "ttm with several matrices (a chain of single-mode products, each covered by C06_cont_ttm) and the 50% switch of ttm with a scipy matrix "
+    "(scipy's own stored count decides; both outcomes are tied to ttm_Ynt / its expansion); collapse with a function other than sum; ttv / "
+    "collapse / contract containers are PROVED (C06_cont_ttv, _collapse, _contract) over the hand-written assembly model Model/C06Cont.v "
+    "(from_aggregator is C03's model, not the translator's), tied to pyttb by the first-run comparison kres_matches",
+    "__getitem__ of sptensor beyond the C04 state machine's paths; __setitem__: C06_ops_setitem_total / C06_ops_region_set are about the C04 "
+    "state machine step_sparse (tied to pyttb by C04's correspondence); C06 itself generates and observes these requests (raw bits, order "
+    "independence) without re-evaluating step_sparse; reshape with old_modes: C06_ops_reshape_modes + first-run tie",
     "squash: the theorem (C06_squash, C06_ops_squash) is about the specified behaviour; pyttb's result is compared with it in subscripts and "
-    "values, its shape deviates (open finding A-27)",
+    "values, its shape deviates (open finding A-27, pinned by the squash doctest)",
     "chains, memory layouts, generators (sptendiag, sptenrand, from_function, sptenmat constructor / from_array): observed only",
 ]
 
@@ -160,6 +166,12 @@ def gen_cases(rng, tier):
             pa = [int(rng.random() < 0.95) for _ in range(n)]
             pb = [int(rng.random() < 0.95) for _ in range(n)]
             cases.append(mk_case(op, c03.binary_args(shape, pa, pb, "sparse", rng, "sorted", "sorted"), rng))
+    # regression (A-07, repaired by /repo e2beb21): sparse/sparse with the common subscripts stored in different relative orders, and
+    # with a divisor whose support lies inside the dividend's (no 0/x position: the quotient must be well-formed for every order)
+    for a, b in ((([[1, 1], [0, 0]], [3, 2]), ([[0, 0], [1, 1]], [5, 7])),
+                 (([[0, 0], [1, 0], [1, 1]], [4, 5, 6]), ([[1, 1], [0, 0]], [2, 3])),
+                 (([[0, 1], [1, 1], [0, 0], [1, 0]], [4, 5, 6, -8]), ([[1, 0], [0, 1], [1, 1]], [2, -4, 3]))):
+        cases.append(mk_case("div", {"shape": [2, 2], "subs": a[0], "vals": a[1], "rk": "sparse", "bsubs": b[0], "bvals": b[1]}, rng))
     # squash and from_aggregator
     for _ in range(400 if big else 120):
         shape = tuple(tgen.rand_shape(rng, maxn=3, maxcells=60, maxdim=6))
@@ -334,30 +346,23 @@ def oracle(c, o):
 # ---------------------------------------------------------------------------------------------
 # known findings
 # ---------------------------------------------------------------------------------------------
-def _any_variant(pred):
-    def trig(c):
-        a = c.args
-        return any(pred(Case(c.op, permuted(a, pa, pb))) for pa, pb in a["variants"])
-    return trig
-
-
 def _squash_shape(c):
     a = c.args
     return c.op == "squash" and any(len({s[n] for s in a["subs"]}) != len(a["subs"]) for n in range(len(a["shape"])))
 
 
-def _div_sparse_bad(c):
-    """A-07: sparse / sparse is right only when both operands have the same support stored in aligned order"""
+def _div_sparse_zero_over_x(c):
+    """C03-N7 (what is left of A-07 after /repo e2beb21): the quotient stores an explicit zero at every position that the
+    divisor stores and the dividend does not; a property of the two supports, the same for every stored order"""
     a = c.args
     if c.op != "div" or a.get("rk") != "sparse":
         return False
     sa = {tuple(s) for s in a["subs"]}
-    sb = {tuple(s) for s in a["bsubs"]}
-    return sa != sb or not U.common_aligned(a)
+    return any(tuple(s) not in sa for s in a["bsubs"])
 
 
 TRIGGERS = {
-    "div_sparse_supports_differ_or_misaligned_some_order": _any_variant(_div_sparse_bad),
+    "div_sparse_divisor_stored_where_dividend_is_not": _div_sparse_zero_over_x,
     "squash_repeated_index_in_some_mode": _squash_shape,
 }
 
@@ -380,7 +385,7 @@ def _witness(op, args):
 
 W22 = {"shape": [2, 2]}
 WITNESS_INPUTS = {
-    "A-07": ("div", dict(W22, subs=[[1, 0]], vals=[4], rk="sparse", bsubs=[[0, 0], [1, 1]], bvals=[2, 3])),
+    "C03-N7": ("div", dict(W22, subs=[[1, 0]], vals=[4], rk="sparse", bsubs=[[0, 0], [1, 1]], bvals=[2, 3])),
     "A-27": ("squash", {"shape": [3, 4], "subs": [[0, 1], [2, 1]], "vals": [2, 1]}),
 }
 WITNESSES = {k: _witness(*v) for k, v in WITNESS_INPUTS.items()}
